@@ -613,7 +613,7 @@ func init() {
 	vh.Register(&vh.Check{
 		ID: "C07", Level: "model_checking",
 		Technique: "explicit-state BFS of accrual/deposit/withdraw histories (settlement succeeding or failing, forged requests, two wallets) on the real PaymentService against a payout reference model + schedule DFS of racing withdrawals under the controlled scheduler",
-		Rule:      "all sequences over {accrue ±, deposit, withdraw with settlement ok/failing, forged withdraw, other wallet} up to the depth bound for 3 fee/minimum configurations, de-duplicated on balances + total paid; per withdrawal: settle attempted iff signed and balance >= minimum, amount = deposit+credit-fee, balance cleared after success, unchanged after failure/refusal, total paid == model; races: all interleavings of 2-3 withdrawals within the preemption bound, total paid <= owed",
+		Rule:      "all sequences over {accrue ±, deposit, withdraw with settlement ok/failing, forged withdraw, other wallet} up to the depth bound for 3 fee/minimum configurations, de-duplicated on balances + total paid; per withdrawal: settle attempted iff signed and balance >= minimum, amount = deposit+credit-fee, balance cleared after success, unchanged after failure/refusal, total paid == model; races: all interleavings of 2-3 withdrawals within the preemption bound, total paid <= owed; a requester hanging up when settlement begins; the registered RPC surface (registry names + exported methods under both prefixes) x unsigned argument tuples: no settlement, no balance change",
 		Assumptions: []string{
 			"the settlement seam (SettleHandler) replaces the on-chain deposit by newBalance on success, as the contract's OpSettle does",
 			"a store failure between a successful settlement and clearing the ledger credit is not injected (cannot be atomic with the chain)",
